@@ -658,7 +658,7 @@ class SpecMixin:
         t = t.strip()
         if t in ('int', 'byte', 'rune', 'uint8', 'uint16', 'uint32', 'uint64', 'int32', 'int64', 'uint'): return [I]
         if t == 'bool': return [B]
-        if t in ('[]byte', 'string'): return [ArrII, I, I]
+        if t in ('[]byte', 'string', '[]int', '[]rune', '[]int32'): return [ArrII, I, I]
         if t == 'seq': return [ByteSeq]
         if t == 'ref': return [I]
         if t == 'arr': return [ArrII]
